@@ -144,7 +144,7 @@ def s_readers(F, R):
                         "`ran out of bytes` an EOF-class I/O error and never over-read the frame" % (f["root"], d), where=loc(x))
             elif "BufReader" in d or "io::util::take" in d or fn.get("name") in ("take", "chain") and "io" in d:
                 R.fail("S-readers", "%s/adaptor/%s" % (f["root"], fn.get("name")), "%s wraps the reader in %s" % (f["root"], d), where=loc(x))
-    R.floor("S-readers", "reader call sites", n, 11)
+    R.floor("S-readers", "reader call sites", n, 8)
     R.analysed["reader_call_sites"] = n
 
 
@@ -232,7 +232,7 @@ def s_ioerr(F, R):
                     R.ok("S-ioerr", key, "tail")
                 else:
                     R.fail("S-ioerr", key + "/discarded", "%s does not propagate the result of %s (%s)" % (f["root"], d, first.get("k")), where=loc(x))
-    R.floor("S-ioerr", "io::Result call sites", n, 20)
+    R.floor("S-ioerr", "io::Result call sites", n, 14)
     R.floor("S-ioerr", "kind-preserving map_err closures", nmap, 3)
     # poll_read arms
     from r_tables import poll_fn_id
